@@ -657,6 +657,11 @@ func (f *Frame) enterLoop(l *Loop, st *State) *State {
 			if _, live := ns.cells[c]; live {
 				ns.cells[c] = fresh("loop_"+c.name, c.sort)
 				f.addHyp(ns.pc, typeFact(ns.cells[c], c.typ))
+				if a.Comment == "rangeindex" {
+					// hidden index of `for i, x := range slice`: compiler-generated cell, initialised to -1 and only ever
+					// incremented by one (no source access): structural invariant
+					f.addHyp(ns.pc, tGe(ns.cells[c], tInt(-1)))
+				}
 			}
 		}
 	}
@@ -792,6 +797,13 @@ func (f *Frame) execInstr(ins ssa.Instruction, st *State) {
 	case *ssa.ChangeInterface:
 		f.vals[ins] = f.get(ins.X)
 	case *ssa.MakeInterface:
+		if f.root.safety && f.eng.typeInvFor(ins.X.Type()) != nil {
+			// closed-world rule of the sweep: an interface never holds a nil pointer of a type with a type invariant
+			// (checked where the pointer is boxed, assumed where a method is dispatched through the interface)
+			if x, ok := f.get(ins.X).(*Term); ok {
+				f.safe(st, "nil", tNot(tEq(x, tInt(0))), ins.Pos(), "nil "+ins.X.Type().String()+" stored in an interface")
+			}
+		}
 		f.vals[ins] = f.box(st, ins.X.Type(), f.get(ins.X))
 	case *ssa.TypeAssert:
 		f.vals[ins] = f.execTypeAssert(ins, st)
